@@ -118,6 +118,8 @@ def worker_main(argv: list[str]) -> int:
               os.path.join(VERIF_DIR, "out", "violations", pid))
     ctx.part = part
     ctx.warm = warm
+    ctx.quick_scale = float(os.environ.get(
+        "VERIF_QUICK_SCALE", getattr(mod, "META", {}).get("quick_scale", 3)))
     t0 = time.monotonic()
     if warm:
         try:
